@@ -2333,6 +2333,8 @@ type zzG10Graph struct {
 	canon  []string
 	bySrc  map[int][]*zzG10Vec
 	mu     sync.Mutex
+	// labFails counts the disagreements per label.
+	labFails map[zzG10Lab]int
 }
 
 func zzG10LoadGraph(t testing.TB, env string) (g *zzG10Graph) {
@@ -2341,7 +2343,7 @@ func zzG10LoadGraph(t testing.TB, env string) (g *zzG10Graph) {
 		t.Fatalf("graph: %v", err)
 	}
 
-	g = &zzG10Graph{bySrc: map[int][]*zzG10Vec{}}
+	g = &zzG10Graph{bySrc: map[int][]*zzG10Vec{}, labFails: map[zzG10Lab]int{}}
 	if err = json.Unmarshal(b, g); err != nil {
 		t.Fatalf("graph: %v", err)
 	}
@@ -2559,12 +2561,17 @@ func TestZZVerifG10Walk(t *testing.T) {
 				}
 
 				put(zzG10M{"kind": "bad", "v": v.ID, "step": st, "hist": hist, "arena": w})
-				// Do not travel over this label again (all labels of its kind,
-				// if it keeps failing, are tried once each as targets anyway).
+				// Do not travel over this vector again, nor -- once it has
+				// failed from three states -- over its label (every vector is
+				// still tried once as a target).
 				g.mu.Lock()
-				for _, x := range g.Vecs {
-					if x.Lab == v.Lab {
-						x.failed = true
+				v.failed = true
+				g.labFails[v.Lab]++
+				if g.labFails[v.Lab] >= 3 {
+					for _, x := range g.Vecs {
+						if x.Lab == v.Lab {
+							x.failed = true
+						}
 					}
 				}
 				g.mu.Unlock()
@@ -2658,6 +2665,12 @@ func (a *zzG10Arena) randomLabel(rep zzG10M) (l zzG10Lab) {
 		for {
 			l = inner()
 			if (l.Op == "rw_add" && has(l.V)) || (l.Op == "rw_upd" && l.V != l.W && has(l.W)) {
+				continue
+			}
+
+			// Labels that run into an open finding end the history (the
+			// validator skips what follows): keep them, but rare.
+			if (l.Op == "ss_enable" || (l.Op == "set" && l.C == "acc" && l.V == "nohosts")) && a.rng.Intn(4) != 0 {
 				continue
 			}
 
